@@ -8,7 +8,7 @@ from .. import gen, impl, oracle, ser, stream
 
 ID = "C08"
 LEVEL = "proof"
-PROPS_MODULE = "SymmModel.Props.C08"
+PROPS_MODULE = "SymmModel.Props.C08All"
 THEOREMS = [
     "SymmModel.C08.locateAll_total",
     "SymmModel.C08.toDenseA_get",
@@ -41,10 +41,30 @@ THEOREMS = [
     "SymmModel.C08.transposeA_elem",
     "SymmModel.C08.transposeA_toDense",
     "SymmModel.C08.hypotheses_of_validB",
-    "SymmModel.C08.GRat_laws"
+    "SymmModel.C08.GRat_laws",
+    "SymmModel.C08.sum_locateAll_reindex",
+    "SymmModel.C08.sum_toDense",
+    "SymmModel.C08.sum_toDense_of_valid",
+    "SymmModel.C08.norm_sq_eq_dense",
+    "SymmModel.C08.norm_sq_eq_dense_of_valid",
+    "SymmModel.C08.dagger_toDense",
+    "SymmModel.C08.squeeze_eq_mask",
+    "SymmModel.C08.squeeze_error_iff",
+    "SymmModel.C08.squeeze_mask_spec",
+    "SymmModel.C08.squeeze_elem",
+    "SymmModel.C08.squeeze_toDense",
+    "SymmModel.C08.expandDims_indices",
+    "SymmModel.C08.expandDims_elem",
+    "SymmModel.C08.expandDims_toDense",
+    "SymmModel.C08.toDenseV_spec",
+    "SymmModel.C08.mapV_toDense",
+    "SymmModel.C08.binopV_ok",
+    "SymmModel.C08.binopV_toDense",
+    "SymmModel.C08.binopV_strict_error_iff",
+    "SymmModel.C08.reduceV_toDense"
 ]
-LEAN_FILES = ["SymmModel.Props.C08", "SymmModel.Proofs.DenseLemmas"]
-PLANNED = ["squeeze_toDense", "expandDims_toDense", "dagger_toDense (= conj o transpose, both proved, composition not stated)", "sum_toDense", "norm_toDense", "BlockVector arithmetic / elementwise functions"]
+LEAN_FILES = ["SymmModel.Props.C08", "SymmModel.Proofs.DenseLemmas", "SymmModel.Props.C08b", "SymmModel.Props.C08All", "SymmModel.Proofs.DenseMore"]
+PLANNED = ["expand_dims with an explicit charge (value view independent of it", "charge update not treated)"]
 RULE = ("every listed operation on random abelian arrays (all symmetries, static/generic, sparse, real/complex) "
         "through method / symmray function / autoray dispatch; binary operations on operands with different stored "
         "sectors; diagonal vectors missing charges; BlockVector arithmetic and every exported elementwise function. "
